@@ -198,7 +198,7 @@ Print Assumptions edge_twins_refuted.
 (* non-vacuity of the hypotheses of write_read_write_partial *)
 Example on_raster_example :
   row_on_raster (1 # 1000000) sec_rf (write_row (1 # 1000000) sec_rf [3; 123456 # 1000; 1; 2; 0; 100 # 1000000; 0; 1 # 2]).
-Proof. cbn. repeat split; reflexivity. Qed.
+Proof. vm_compute. repeat split. Qed.
 Example fixed_point_example :
   let s := mkF [(key_block_raster, [1 # 100000]); (key_rf_raster, [1 # 1000000])]
                [[1; 3 # 1000; 1; 0; 0; 0; 0; 0]] [[1; 123456789 # 1000; 1; 2; 0; 100 # 1000000; 0; 1 # 3]]
